@@ -54,8 +54,10 @@ def run_item(item):
     params, functions = env.environment(d)
     df = popgen.population(prng, d, n_hh=6, params=params)
     df = df.iloc[prng.permutation(len(df))].reset_index(drop=True)
-    TARGETS = env.feasible_targets(functions, list(df.columns), data=df, params=params,
-                                   candidates=[*env.DEFAULT_TARGETS, "zu_verst_eink_y_sn", "vorsorgeaufw_y_sn"]) if item.get("historical") else None
+    TARGETS = None
+    if item.get("historical"):
+        df = popgen.historical_supplement(df, d)
+        TARGETS = env.feasible_targets(functions, list(df.columns), data=df, params=params, candidates=env.HIST_CANDIDATES)
     S0, nodes, roots, dag, fn = env.trace(df, params, functions, TARGETS)
     n = len(df)
     res = dict(date=item["date"], pop=popgen.digest(df), runs=0, violations=[], target_sets=[],
